@@ -64,6 +64,11 @@ Proof.
   repeat split; first [assumption | reflexivity | exact A10].
 Qed.
 
+(* helper values the machine assumes: parent search is enabled in the default debug settings (the model
+   sends ToggleParentSearch accordingly); the searches block flag and the default listener priority exist. *)
+Theorem C13_helpers_as_assumed : search_for_parent_default = true /\ 0 < BLOCKING_FLAG_SEARCHES /\ 0 < DEFAULT_LISTENER_PRIORITY.
+Proof. exact helpers_as_assumed. Qed.
+
 (* non-vacuity: a parent chosen among two candidates, a child admitted, the parent lost under Hold
    and a new one chosen before Release; then the new parent announces another level; and the two
    histories that exhibited F10 / F11 before the repair now satisfy the invariants non-trivially *)
